@@ -1490,7 +1490,7 @@ def budget(tier, prop=None):
         _BUDGET_PROP[0] = prop
     if tier == 'quick':
         return {'runs': QUICK_RUNS.get(_BUDGET_PROP[0], 24000), 'wall': 70, 'chunk': 100, 'selftest': 8, 'minimise_s': 60,
-                'canary_runs': 8000, 'canary_wall': 60}
+                'canary_runs': 24000, 'canary_wall': 120}
     return {'runs': 400000, 'wall': 900, 'chunk': 200, 'selftest': 24, 'minimise_s': 180,
             'canary_runs': 40000, 'canary_wall': 150}
 
@@ -2100,8 +2100,9 @@ class C03Oracle(OracleBase):
                     key = w[-1]
                     if not isinstance(stored, pg.Symbolic) or not stored.sym_partial:
                         continue
-                    if getattr(self, '_pre_paths', {}).get(id(stored)) == tuple(map(repr, w)):
-                        continue      # the value that was there already (made partial earlier)
+                    if id(stored) in getattr(self, '_pre_paths', {}):
+                        continue      # a value that was in the forest already (made partial
+                        #               earlier; a deletion only moved it into this slot)
                     if isinstance(container, pg.Object):
                         field = type(container).__schema__.get_field(key)
                         spec = field.value if field is not None else None
@@ -2116,6 +2117,18 @@ class C03Oracle(OracleBase):
                     continue
                 if spec is None or isinstance(spec, pg.typing.Any) or container.allow_partial:
                     continue
+                if isinstance(stored, (pg.Dict, pg.List)) and stored.value_spec is not None \
+                        and not stored.allow_partial:
+                    # known finding: a typed Dict/List that was emptied under
+                    # pg.allow_partial(True) keeps allow_partial=False; custom_apply skips
+                    # validation when the flags of value and slot agree, so a copy of it
+                    # is accepted by a strict slot
+                    self.bad('C03.partial-accepted', 'typed-container-flag-trusted',
+                             f'{op["k"]}{json.dumps(op["a"])[:160]} stored a partial typed '
+                             f'{type(stored).__name__} (missing {list(stored.sym_missing())[:3]}, '
+                             f'own allow_partial=False) in the typed slot {key!r} of a strict '
+                             f'{type(container).__name__} at {list(w[:-1])}', step)
+                    return False
                 self.bad('C03.partial-accepted', f'{op["k"]}|{type(container).__name__}',
                          f'{op["k"]}{json.dumps(op["a"])[:160]} stored a partial '
                          f'{type(stored).__name__} (missing {list(stored.sym_missing())[:3]}) in the '
